@@ -211,6 +211,9 @@ def _main_rule(ctx, r, modname):
     def add(e, s, tr):
         v = e['_V']
         m = pm.match('xtuml.check_association_integrity(_M, _R)', v)
+        if m and isinstance(m['_R'], ast.Constant) and m['_R'].value is None:
+            s['sum'].append(('assoc', None))
+            return True
         if m:
             s['sum'].append(('assoc', s.get('env', {}).get(getattr(m['_R'], 'id', None), '?' + src(m['_R']))))
             return True
@@ -219,6 +222,9 @@ def _main_rule(ctx, r, modname):
             s['sum'].append(('assoc', None))
             return True
         m = pm.match('xtuml.check_uniqueness_constraint(_M, _K)', v)
+        if m and isinstance(m['_K'], ast.Constant) and m['_K'].value is None:
+            s['sum'].append(('uniq', None))
+            return True
         if m:
             s['sum'].append(('uniq', s.get('env', {}).get(getattr(m['_K'], 'id', None), '?' + src(m['_K']))))
             return True
@@ -463,6 +469,9 @@ def uniq(ctx):
 
         def addc(e, s, tr):
             x = e['_X']
+            if isinstance(x, ast.Constant) and isinstance(x.value, int) and not isinstance(x.value, bool) and isinstance(e['_C'], ast.Name):
+                s.setdefault('counters', {})[e['_C'].id] = s.get('counters', {}).get(e['_C'].id, 0) + x.value
+                return True
             if isinstance(x, ast.Name) and x.id in s.get('counters', {}) and isinstance(e['_C'], ast.Name):
                 s['counters'][e['_C'].id] = s['counters'].get(e['_C'].id, 0) + s['counters'][x.id]
                 return True
